@@ -343,6 +343,136 @@ def _r123b(ctx: Ctx) -> None:
            key='BatchSimulation.save_file|file')
 
 
+def _jsonish(v):
+    """What json.dumps(cls=NumpyEncoder) + json.loads make of a value (arrays and tuples become lists)."""
+    if isinstance(v, np.ndarray):
+        return _jsonish(v.tolist())
+    if isinstance(v, np.generic):
+        return v.item()
+    if isinstance(v, dict):
+        return {str(k): _jsonish(x) for k, x in v.items()}
+    if isinstance(v, (list, tuple)):
+        return [_jsonish(x) for x in v]
+    return v
+
+
+def _r123c(ctx: Ctx) -> None:
+    """Round trip of one simulation's record through the results file, for both simulation classes: the record
+    written by a fresh object must be recognised (a plain bool, not an array comparison) and, once loaded, every
+    container the trial loop appends to must still be a list."""
+    m = ctx.model
+    from ..symnp import call_numpy
+    from ..interp import BoundMethod, PathRaise
+
+    class H(Hooks):
+        def call(self, it, func, args, kwargs, node, env):
+            if isinstance(func, Ext) and func.name.startswith('numpy'):
+                r = call_numpy(func, args, kwargs)
+                return TOP if r is NOT_HANDLED else r
+            return NOT_HANDLED
+
+    def mk(cname, it):
+        ci = m.cls(cname)
+        init = ci.find_method('__init__')
+        o = Obj(ci, 'simulation')
+        code = Obj(m.cls('StabilizerCode'), 'code')
+        code.fields.update(id='Toric2DCode', params={'L_x': 3}, n=18, k=2, d=3, size=(3, 3), label='Toric 3x3')
+        em = Obj(m.cls('BaseErrorModel'), 'noise')
+        em.fields.update(id='PauliErrorModel', params={'r_x': 1.0}, label='noise')
+
+        def dec(r):
+            d = Obj(m.cls('BaseDecoder'), f'decoder@{r}')
+            d.fields.update(id='MatchingDecoder', params={}, error_rate=r)
+            return d
+        if cname == 'DirectSimulation':
+            args = [code, em, dec(0.1), 0.1]
+        else:
+            args = [code, em, [dec(0.1), dec(0.2)], [0.1, 0.2], 5]
+        it.call_closure(Closure(init[1], init[0].module, init[0]), args, {}, init[1], self_obj=o)
+        return ci, o
+    for cname in ('DirectSimulation', 'SplittingSimulation'):
+        ci = m.cls(cname)
+        site = site_of(ci.module, ci.node)
+        it = Interp(m, H())
+
+        def thunk():
+            ci_, o = mk(cname, it)
+            inputs, results = o.fields.get('_inputs'), o.fields.get('_results')
+            if not isinstance(inputs, dict) or not isinstance(results, dict):
+                raise AnalysisError('R12.3', site, f'{cname}: _inputs/_results not tracked')
+            # a few trials as the loop would record them: every list-valued entry gets elements of its own shape
+            def filled(v):
+                if isinstance(v, list) and v and all(isinstance(x, list) for x in v):
+                    return [[-1.5, -2.5] for _ in v]
+                if isinstance(v, list):
+                    return [[0, 1], [1, 0]]
+                return v
+            rec = {'inputs': _jsonish(inputs), 'results': _jsonish({k: filled(v) for k, v in results.items()})}
+            # (1) found again?
+            fcs = ci_.find_method('_find_current_simulation')
+            found = it.call_closure(Closure(fcs[1], fcs[0].module, fcs[0]), [[{'inputs': {'other': 1}, 'results': {}}, rec]], {},
+                                    fcs[1], self_obj=o)
+            # (2) loaded, then appended to
+            ld = ci_.find_method('load_results_from_dict')
+            it.call_closure(Closure(ld[1], ld[0].module, ld[0]), [rec], {}, ld[1], self_obj=o)
+            return found is rec or found == rec, {k: v for k, v in o.fields['_results'].items()}, \
+                {k: type(v).__name__ for k, v in inputs.items() if isinstance(v, (np.ndarray, np.generic))}
+        outs = guard('R12.3', ci.module, ci.node)(lambda: it.explore(thunk))
+        raises = [o for o in outs if o.kind != 'return']
+        arrays = {}
+        ok_found = not raises and all(o.value[0] is True for o in outs)
+        detail = ''
+        if raises:
+            detail = f'looking the record up raises {raises[0].exc}'
+        elif not ok_found:
+            detail = 'the record written by the same configuration is not recognised'
+        for o in outs:
+            if o.kind == 'return':
+                arrays.update(o.value[2])
+        if arrays:
+            ok_found = False
+            detail = (f'_inputs holds NumPy values {arrays}: `sim["inputs"] == self._inputs` compares a list with an array '
+                      f'element-wise and the `if` raises "truth value of an array is ambiguous" - every resume fails')
+        ctx.ob('R12.3', site, f'{cname}: its own record is recognised when the results file is read back', ok_found, detail,
+               key=f'{cname}|roundtrip-identity', facts=arrays)
+        # append targets of the trial loop
+        run = ci.methods.get('_run')
+        ctx.need(run is not None, 'R12.3', site, f'{cname}._run not found')
+        targets = []
+        for n in ast.walk(run):
+            if isinstance(n, ast.Call) and isinstance(n.func, ast.Attribute) and n.func.attr == 'append':
+                t = n.func.value
+                depth = 0
+                while isinstance(t, ast.Subscript) and not (isinstance(t.value, ast.Attribute) and t.value.attr == '_results'):
+                    t = t.value
+                    depth += 1
+                if isinstance(t, ast.Subscript) and isinstance(t.value, ast.Attribute) and t.value.attr == '_results':
+                    key = ast.literal_eval(t.slice) if isinstance(t.slice, ast.Constant) else None
+                    targets.append((key, depth, n))
+        ctx.need(targets, 'R12.3', site_of(ci.module, run), f'{cname}._run: no append into self._results found')
+        rets = [o for o in outs if o.kind == 'return']
+        for key, depth, n in targets:
+            bad = None
+            for o in rets:
+                loaded = o.value[1]
+                if key is None:
+                    keys = [k for k, v in loaded.items() if isinstance(v, (list, np.ndarray))]
+                else:
+                    keys = [key]
+                for k in keys:
+                    v = loaded.get(k)
+                    conts = [v] if depth == 0 else (list(v) if isinstance(v, (list, np.ndarray)) else [v])
+                    for c in conts:
+                        if c is TOP or 'TOP' in type(c).__name__.upper():
+                            raise AnalysisError('R12.3', site_of(ci.module, n), f'{cname}: loaded value of {k!r} not tracked')
+                        if not isinstance(c, list):
+                            bad = (f"after loading, self._results[{k!r}]{'[i]' * depth} is a {type(c).__name__}: "
+                                   f'`{norm_stmt(n)}` raises AttributeError on the first trial of a resumed run')
+            ctx.ob('R12.3', site_of(ci.module, n), f'{cname}._run appends to {"every per-trial list" if key is None else key!r}: '
+                                                   f'still a list after a resume', bad is None, bad or '',
+                   key=f'{cname}._run|append[{key}]')
+
+
 def _r124(ctx: Ctx) -> None:
     m = ctx.model
     ci = m.cls('BatchSimulation')
@@ -533,6 +663,8 @@ def run(ctx: Ctx) -> None:
         _r123(ctx)
     with ctx.part():
         _r123b(ctx)
+    with ctx.part():
+        _r123c(ctx)
     from .c06 import class_mutable_rule
     with ctx.part():
         class_mutable_rule(ctx, 'R12.3', ['DirectSimulation', 'SplittingSimulation', 'BatchSimulation'])
